@@ -227,3 +227,36 @@ package core
 //@ loop 1 step-assert [the-position-carried-over-is-the-end-of-this-pass] next(pos) == fk.res0
 //@ ensures [a-failed-first-pass-ends-the-run-with-its-error] f0.res1 != nil ==> result == f0.res1 && !fk.called
 //@ ensures [a-one-shot-run-makes-exactly-one-pass] f0.res1 == nil && !c.opts.FetcherOptions.Continuous ==> result == nil && !fk.called
+
+// C20 "mastership changes never cause gaps, reordering or conflicting duplicates" rests on copying
+// only while master: the run (with its restarts) is started only after the election was won, under
+// the mastership context the election handed out, and only if that context had not already ended;
+// without an election there is no run.
+//@ func (*Controller).RunWhenMaster
+//@ props C20
+//@ site sleepRandom#1 as sl
+//@ site NewElection#1 as ne
+//@ site Await#1 as aw
+//@ site WithMastership#1 as wm
+//@ site Err#1 as me
+//@ site runWithRestarts#1 as rr
+//@ stable-field c.ctClient c.plClient c.ctClient.JSONClient c.opts c.plClient.cli c.plClient.idFunc c.ef c.label
+//@ requires c != nil && c.ef != nil && ctx != nil && metrics.isMaster != nil && metrics.masterRuns != nil && metrics.masterCancels != nil
+//@ requires c.plClient != nil && c.plClient.cli != nil && c.plClient.idFunc != nil && c.ctClient != nil && c.ctClient.httpClient != nil
+//@ requires [options-from-a-validated-config] c.opts.FetcherOptions.BatchSize >= 1 && c.opts.FetcherOptions.EndIndex >= 0 && metrics.controllerStarts != nil
+//@ at rr assert [copying-only-under-the-mastership-context-of-a-won-election] aw.res == nil && wm.res1 == nil && rr.ctx == wm.res0 && wm.res0 != nil && me.res == nil && rr.c == c
+//@ ensures [no-election-no-run] sl.res != nil || (ne.called && ne.res1 != nil) ==> result != nil && !rr.called
+
+// One-shot: exactly one run, its verdict returned. Continuous: a failed run is started again (after a
+// pause) for as long as the context it was given lives; every run is this controller's, under that
+// same context.
+//@ func (*Controller).runWithRestarts
+//@ props C20
+//@ site Run#1 as r0
+//@ site Run#2 as rk
+//@ stable-field c.ctClient c.plClient c.ctClient.JSONClient c.opts c.plClient.cli c.plClient.idFunc c.label
+//@ requires c != nil && c.plClient != nil && c.plClient.cli != nil && c.plClient.idFunc != nil && c.ctClient != nil && c.ctClient.httpClient != nil && ctx != nil
+//@ requires [options-from-a-validated-config] c.opts.FetcherOptions.BatchSize >= 1 && c.opts.FetcherOptions.EndIndex >= 0 && metrics.controllerStarts != nil
+//@ at r0 assert [this-controllers-run-under-the-given-context] r0.c == c && r0.ctx == ctx
+//@ at rk assert [restarts-are-runs-of-the-same-controller-under-the-same-context] rk.c == c && rk.ctx == ctx
+//@ ensures [one-shot-is-exactly-one-run] !c.opts.FetcherOptions.Continuous ==> result == r0.res && !rk.called
